@@ -60,7 +60,7 @@ class HavocScheduler(BaseScheduler):
             if not was_scheduled or self.replan_left.get(tn, 0) > 0:
                 if self.unplaced_left.setdefault(tn, cfg.get("max_unplaced", 1)) > 0:
                     opts.append(("unplaced",))
-                if self.cancel_left > 0:
+                if self.cancel_left > 0 and cfg.get("cancel", True):
                     opts.append(("cancel",))
                 strats = list(task.available_execution_strategies)
                 if cfg.get("first_strategy_only"):
